@@ -477,6 +477,222 @@ def run_c15(ctx):
     return res
 
 
+# ---- C19 / C05 operator grids -------------------------------------------------------------------------
+from fractions import Fraction
+import struct as _struct
+
+INT_RANGES = {"int8": 8, "int16": 16, "int32": 32, "int64": 64, "int": 64}
+UINT_RANGES = {"uint8": 8, "uint16": 16, "uint32": 32, "uint64": 64, "uint": 64}
+
+
+def _f64bits(x):
+    return _struct.unpack("<Q", _struct.pack("<d", x))[0]
+
+
+def _bits_f64(b):
+    return _struct.unpack("<d", _struct.pack("<Q", b))[0]
+
+
+def operand_values(kind, rich):
+    if kind in INT_RANGES:
+        w = INT_RANGES[kind]
+        vals = {0, 1, -1, 2, -(2 ** (w - 1)), 2 ** (w - 1) - 1, 5, -7}
+        if rich:
+            vals |= {x for x in (127, 128, -128, -129, 255, 256, 2 ** 31 - 1, 2 ** 31, -(2 ** 31), 2 ** 53 - 1, 2 ** 53, 2 ** 53 + 1, -(2 ** 53) - 1,
+                                  2 ** 62, 2 ** 63 - 1) if -(2 ** (w - 1)) <= x < 2 ** (w - 1)}
+        return [[kind, str(v)] for v in sorted(vals)]
+    if kind in UINT_RANGES:
+        w = UINT_RANGES[kind]
+        vals = {0, 1, 2, 2 ** w - 1, 5}
+        if rich:
+            vals |= {x for x in (127, 128, 255, 256, 2 ** 31, 2 ** 32 - 1, 2 ** 53, 2 ** 53 + 1, 2 ** 63 - 1, 2 ** 63, 2 ** 64 - 1) if x < 2 ** w}
+        return [[kind, str(v)] for v in sorted(vals)]
+    if kind == "float64":
+        xs = [0.0, -0.0, 1.0, -1.0, 0.5, 1.5, -2.5, 5.0, 2.0 ** 53, 2.0 ** 53 + 2, -(2.0 ** 53), 9.223372036854775807e18, 1e300, -1e300, 5e-324,
+              255.0, 256.0, 127.0, 128.0, -128.0, 2147483648.0]
+        if rich:
+            xs += [float("inf"), float("-inf"), float("nan"), 1e-7, 2e-7, 0.1, 1.8446744073709552e19, 3.4028234663852886e38]
+        return [["float64", str(_f64bits(x))] for x in xs]
+    if kind == "float32":
+        xs = [0.0, 1.0, -1.0, 0.5, 1.5, 5.0, 16777216.0, 255.0, 128.0, -128.0]
+        if rich:
+            xs += [float("inf"), float("nan"), 3.4028234663852886e38]
+        return [["float32", str(_f64bits(x))] for x in xs]
+    if kind == "string":
+        return [["string", v] for v in ["", "a", "ab", "b", "A", "é", "a b", "10", "9"]]
+    if kind == "bool":
+        return [["bool", True], ["bool", False]]
+    if kind == "time":
+        return [["time", "0", "0", None], ["time", "0", "2", None], ["time", "0", "0", "0"], ["time", "0", "1", "0"], ["time", "5", "1", None],
+                ["time", "-5", "0", None], ["time", "5", "2", "5"], ["time", "1000000000", "3", None]]
+    return []
+
+
+NUM_KINDS = list(INT_RANGES) + list(UINT_RANGES) + ["float32", "float64"]
+CMP_OPS = ["<", "<=", ">", ">=", "==", "!="]
+ARITH_OPS = ["+", "-", "*", "/", "%", "&", "|"]
+
+
+def exact_value(leaf):
+    k = leaf[0]
+    if k in INT_RANGES or k in UINT_RANGES:
+        return Fraction(int(leaf[1]))
+    if k in ("float64", "float32"):
+        x = _bits_f64(int(leaf[1]))
+        if x != x or x in (float("inf"), float("-inf")):
+            return None
+        return Fraction(x)
+    return None
+
+
+def in_c19_domain(l, r):
+    """the property's quantifier: same family, NaN excluded, integers inside the int64 window"""
+    fam = lambda k: "num" if k in NUM_KINDS else k
+    if fam(l[0]) != fam(r[0]):
+        return False
+    for x in (l, r):
+        if x[0] in ("float64", "float32"):
+            v = _bits_f64(int(x[1]))
+            if v != v:
+                return False
+        if x[0] in UINT_RANGES and int(x[1]) >= 2 ** 63:
+            return False
+    return True
+
+
+def wrap_operand(rng, leaf):
+    x = rng.below(10)
+    if x == 0:
+        return ["pscalar", leaf]
+    if x == 1:
+        return ["iscalar", leaf]
+    return leaf
+
+
+def unwrap(o):
+    return o[1] if o[0] in ("pscalar", "iscalar") else o
+
+
+def cmp_scenarios(ctx, rng, full):
+    pairs = []
+    fams = [(NUM_KINDS, NUM_KINDS), (["string"], ["string"]), (["bool"], ["bool"]), (["time"], ["time"])]
+    cross = [("string", "int64"), ("bool", "string"), ("int64", "bool"), ("time", "int64"), ("float64", "string"), ("string", "time")]
+    for ks1, ks2 in fams:
+        for k1 in ks1:
+            for k2 in ks2:
+                v1 = operand_values(k1, True)
+                v2 = operand_values(k2, True)
+                for a in v1:
+                    for b in v2:
+                        pairs.append((a, b))
+    for k1, k2 in cross:
+        for a in operand_values(k1, False)[:3]:
+            for b in operand_values(k2, False)[:3]:
+                pairs.append((a, b))
+    if not full:
+        pairs = rng.shuffle(pairs)[:ctx.n(2500, 0) or len(pairs)]
+    scs = []
+    for i, (a, b) in enumerate(pairs):
+        la, lb = wrap_operand(rng, a), wrap_operand(rng, b)
+        ops = [{"op": "binop", "o": o, "l": la, "r": lb} for o in CMP_OPS] + [{"op": "binop", "o": o, "l": lb, "r": la} for o in CMP_OPS]
+        scs.append({"id": "cmp-%d" % i, "ops": ops, "pair": [a, b]})
+    return scs
+
+
+def monitor_cmp(sc, g):
+    """C19 evaluated directly on the real pkg.Evaluate* results"""
+    out = []
+    a, b = sc["pair"]
+    if not in_c19_domain(a, b):
+        return out
+    rs = g.get("res", [])
+    def val(i):
+        r = rs[i] if i < len(rs) else {}
+        v = r.get("v")
+        return v[1] if v and v[0] == "bool" else None
+    ab = [val(i) for i in range(6)]
+    ba = [val(i) for i in range(6, 12)]
+    if a[0] == "bool":
+        if ab[4] is None or ab[5] is None or ab[4] == ab[5] or ab[4] != ba[4] or ab[5] != ba[5]:
+            out.append(("bool-eq-ne", "%s vs %s: ==:%s !=:%s mirrored ==:%s !=:%s" % (a, b, ab[4], ab[5], ba[4], ba[5])))
+        return out
+    if any(x is None for x in ab + ba):
+        out.append(("not-a-boolean-answer", "%s vs %s: %s %s" % (a, b, ab, ba)))
+        return out
+    lt, le, gt, ge, eq, ne = ab
+    if [lt, eq, gt].count(True) != 1:
+        out.append(("trichotomy", "%s vs %s: <:%s ==:%s >:%s" % (a, b, lt, eq, gt)))
+    if le != (lt or eq):
+        out.append(("le", "%s vs %s: <=:%s but <:%s ==:%s" % (a, b, le, lt, eq)))
+    if ge != (gt or eq):
+        out.append(("ge", "%s vs %s: >=:%s but >:%s ==:%s" % (a, b, ge, gt, eq)))
+    if ne != (not eq):
+        out.append(("ne", "%s vs %s: !=:%s ==:%s" % (a, b, ne, eq)))
+    if ba != [gt, ge, lt, le, eq, ne]:
+        out.append(("mirror", "%s vs %s: %s mirrored %s" % (a, b, ab, ba)))
+    # value semantics where both operands denote their number exactly
+    xa, xb = exact_value(a), exact_value(b)
+    if xa is not None and xb is not None:
+        mixed = (a[0] in ("float64", "float32")) != (b[0] in ("float64", "float32"))
+        ok_exact = (not mixed) or all(abs(x) <= 2 ** 53 for x, leaf in ((xa, a), (xb, b)) if leaf[0] not in ("float64", "float32"))
+        if ok_exact and [lt, eq, gt] != [xa < xb, xa == xb, xa > xb]:
+            out.append(("value", "%s vs %s: answers %s, numbers compare %s" % (a, b, [lt, eq, gt], [xa < xb, xa == xb, xa > xb])))
+    if a[0] == "time":
+        ia, ib = int(a[1]), int(b[1])
+        if [lt, eq, gt] != [ia < ib, ia == ib, ia > ib]:
+            out.append(("instant", "%s vs %s: answers %s" % (a, b, [lt, eq, gt])))
+    return out
+
+
+def binop_sweep(ctx, res, scs, monitor, owner):
+    go = pl.run_go(scs, jobs=ctx.jobs)
+    lean = pl.run_lean(scs, jobs=ctx.jobs)
+    for sc, g, l in zip(scs, go, lean):
+        res.evaluations += 1
+        if "res" not in g or "res" not in l:
+            res.corr_details.append({"id": sc["id"], "status": "crash", "detail": json.dumps([g, l])[:400], "scenario": sc})
+            res.corr_broken = True
+            continue
+        unm = any(isinstance(x.get("out"), str) and x["out"].startswith("unmodelled") for x in l["res"])
+        if unm:
+            res.unmodelled += 1
+        else:
+            res.corr_compared += 1
+            d = pl.first_diff([pl.canon_binop(x) for x in g["res"]], [pl.canon_binop(x) for x in l["res"]], "ops")
+            if d:
+                res.corr_details.append({"id": sc["id"], "status": "mismatch", "detail": d[:400], "scenario": sc})
+                res.corr_broken = True
+        key = json.dumps(sc.get("pair") or sc["ops"][0])
+        kinds = "%s x %s" % tuple(x[0] for x in sc["pair"]) if "pair" in sc else "?"
+        res.count("kinds:" + kinds)
+        if key not in res._distinct:
+            res._distinct.add(key)
+            res.distinct_nontrivial += 1
+            if len(res.samples) < 4:
+                res.samples.append({"pair": sc.get("pair"), "real": [x.get("v", x.get("err")) for x in g["res"]][:12]})
+        for sig, det in monitor(sc, g):
+            res.violations.append({"signature": "monitor:" + sig, "detail": det, "scenario": sc, "impl": g["res"]})
+    # fold the per-kind-pair counts into one number to keep the evidence small
+    cells = len([k for k in res.distribution if k.startswith("kinds:")])
+    for k in [k for k in res.distribution if k.startswith("kinds:")]:
+        del res.distribution[k]
+    res.distribution["kind-pairs-hit"] = cells
+
+
+def run_c19(ctx):
+    res = Result()
+    res.rule = ("all ordered kind pairs inside the numeric family (12x12), strings, bools, times and a few cross-family pairs, values from a boundary-rich "
+                "domain (zero, +-1, width limits, 2^31, 2^53+-1, 2^63-1, fractions, -0, Inf, equal instants in different locations / with monotonic "
+                "reading), 10% of operands behind a pointer or inside an interface; for each pair the six operators in both operand orders are evaluated "
+                "by the real pkg.Evaluate* functions and by the model over the regenerated tables; monitor = the C19 statement itself plus exact "
+                "rational comparison where both operands denote exactly; quick: 2500 random pairs, thorough: the whole grid; distinct = operand pair")
+    rng = Rng(ctx.seed * 31337 + 19)
+    scs = cmp_scenarios(ctx, rng, ctx.tier == "thorough")
+    for i in range(0, len(scs), 20000):
+        binop_sweep(ctx, res, scs[i:i + 20000], monitor_cmp, "C19")
+    return res
+
+
 PROPS = {}
 
 
@@ -491,6 +707,7 @@ prop("C03", run=lambda ctx: run_engine_generic(ctx))
 prop("C04", run=lambda ctx: run_engine_generic(ctx))
 prop("C06", run=lambda ctx: run_engine_generic(ctx))
 prop("C15", run=run_c15)
+prop("C19", run=run_c19)
 prop("C10", run=lambda ctx: run_engine_generic(ctx, mix=(("stable", 5), ("wild", 4), ("cancel", 1))))
 prop("C11", run=lambda ctx: run_engine_generic(ctx))
 prop("C13", run=lambda ctx: run_engine_generic(ctx))
